@@ -89,9 +89,9 @@ Definition lines_of (t : tor) : list bytes :=
 Definition queries (t : tor) : list bytes :=
   getconf_line (tx key_getconf) :: (if asked_default t then [getconf_line (tx key_default)] else []).
 
-(* `if socks_config and p != socks_config: continue` *)
+(* `if socks_config and p != socks_config.split()[0]: continue` *)
 Definition sel (want : option bytes) (w : bytes) : bool :=
-  match want with Some x => beqb w x | None => true end.
+  match want with Some x => beqb w (first_word x) | None => true end.
 
 Definition parsed (want : option bytes) (ws : list bytes) : list endpoint :=
   flat_map (fun w => if sel want w then opt_list (parse_line w) else []) ws.
